@@ -46,10 +46,11 @@ def addr_key(addr):
 
 
 class Link:
-    __slots__ = ('src', 'dst', 'up', 'last_arrival', 'lid', 'nsent', 'key')
+    __slots__ = ('src', 'dst', 'up', 'last_arrival', 'lid', 'nsent', 'key', 'dst_kept')
 
     def __init__(self, src, dst, lid, key):
         self.src, self.dst, self.up, self.last_arrival, self.lid, self.nsent, self.key = src, dst, False, 0, lid, 0, key
+        self.dst_kept = True    # the receiving socket is still there (a closed *sender* does not recall what it already sent)
 
 
 class Socket:
@@ -305,6 +306,8 @@ class World:
                 lst.remove(sock)
         for link in sock.links:
             link.up = False
+            if link.dst is sock:
+                link.dst_kept = False
             other = link.dst if link.src is sock else link.src
             if link in other.links:
                 other.links.remove(link)
@@ -387,10 +390,13 @@ class World:
                             self.transmit(link, m)
             elif kind == 'deliver':
                 _, link, msg = ev
-                if not link.up or link.dst.closed:
+                # what is already on the wire arrives even if the sender has closed or died since; only a gone receiver loses it
+                if link.dst.closed or link.dst.actor.dead or not link.dst_kept:
                     continue
                 dst = link.dst
                 dst.inq.append(msg)
+                if b'"mid":-2' in (msg[1] if link.src.typ == PUB else msg[0]):
+                    self.log.append(('oob_delivered', self.now, link.src.actor.name, link.src.actor.inc, dst.actor.name, dst.actor.inc, msg))
                 a = dst.actor
                 if a.waiting is not None and dst in a.waiting[0] and not a.done:
                     self._run_actor(a)
